@@ -167,6 +167,35 @@ def aggregate_obligations(rep):
                     rep.failed(oid, 'pysym', f'`{sql}` is rendered as `{txt}`: DISTINCT is lost', function=FN, clause=clause, replay=replay_exec(sql))
 
 
+def alias_obligations(rep):
+    """`<expression> AS name` in the select list: the rendered statement names that output column `name`, for every kind of expression the grammar produces
+    (read from the SQLAlchemy element tree: the key of the selected column)"""
+    exprs = {'column': 'a', 'qualified': 't.a', 'constant': '1', 'string': "'s'", 'null': 'NULL', 'binary': 'a + 1', 'comparison': 'a > 1', 'logical': 'a > 1 and b < 2', 'not': 'not a', 'neg': '- a',
+             'function': 'upper(c)', 'aggregate': 'count(*)', 'agg-distinct': 'count(distinct a)', 'case': 'case when a > 1 then 1 else 0 end', 'case-arg': "case a when 1 then 'x' end", 'between': 'a between 1 and 2',
+             'in-list': 'a in (1, 2)', 'is-null': 'a is null', 'like': "c like 'x%'", 'cast': 'cast(a as int)', 'subselect': '(select max(a) from u)', 'window': 'sum(a) over (partition by b)',
+             'concat': "c || 'x'", 'paren': '(a + 1)'}
+    for name, e in exprs.items():
+        oid = f'C06.alias.{name}'
+        sql = f'select {e} as out1, b from t'
+        clause = 'a select-list item `e AS name` is rendered as an output column called name, whatever kind of expression e is (or refused)'
+        try:
+            r, stmt, q = stmt_of(sql)
+            cols = list(stmt.selected_columns)
+            key = getattr(cols[0], 'key', None) or getattr(cols[0], 'name', None)
+        except Exception as ex_:
+            if isinstance(ex_, (NotImplementedError, SQLAlchemyError, ParsingException)):
+                rep.proved(oid, 'pysym', f'refused / not in the dialect ({type(ex_).__name__})', function=FN, clause=clause)
+            else:
+                rep.failed(oid, 'pysym', f'rendering raises {type(ex_).__name__}: {ex_}'[:150], function=FN, clause=clause, replay=replay_exec(sql))
+            continue
+        if key == 'out1':
+            rep.proved(oid, 'pysym', 'output column out1', function=FN, clause=clause)
+        else:
+            txt = ' '.join(text_of(sql).split())
+            rep.failed(oid, 'pysym', f'`{sql}` is rendered as `{txt[:120]}`: the output column is called {key!r}, not out1', function=FN, clause=clause,
+                       replay={'input': sql, 'dialect': 'mindsdb', 'fires': ' AS out1' not in txt and ' AS "out1"' not in txt, 'observed': txt[:160], 'expected': '... AS out1'})
+
+
 def order_obligations(rep):
     import sqlalchemy as sa
     from sqlalchemy.sql import operators
@@ -783,6 +812,7 @@ def check(rep, tier):
     join_obligations(rep)
     join_chain_obligations(rep)
     aggregate_obligations(rep)
+    alias_obligations(rep)
     order_obligations(rep)
     list_obligations(rep)
     dml_obligations(rep)
